@@ -22,7 +22,7 @@ func init() {
 
 func runC08(c *Ctx) {
 	p := c.Prog
-	c.Rule("R8.1", "hold-back knob and in-progress marker are set on every admitting path", 8)
+	c.Rule("R8.1", "hold-back knob and in-progress marker are set on every admitting path", 5)
 	c.Rule("R8.2", "only release changes of workloads with a matching live Rollout are held back", 12)
 	c.Rule("R8.3", "a patch is produced only when the handler reports a change", 4)
 	c.Rule("R8.4", "an in-progress Deployment is re-paused", 2)
